@@ -238,7 +238,7 @@ func sysRandomStims(rng *rand.Rand, cfg sys.Config, n int, w map[string]int) []s
 		case "newstream":
 			out = append(out, sys.Stim{K: "start", T: t, Op: "NewStream", Md: []string{"none", "none", "M1"}[rng.Intn(3)]})
 		case "op":
-			out = append(out, sys.Stim{K: "op", T: t, Op: []string{"Send1", "Send2", "Recv", "Recv", "CloseSend", "Close"}[rng.Intn(6)], R: 1 + rng.Intn(sys.MaxRPC)})
+			out = append(out, sys.Stim{K: "op", T: t, Op: []string{"Send1", "Send2", "Recv", "Recv", "CloseSend", "Close", "Send1", "Send2", "Recv", "Recv", "CloseSend", "SendErr"}[rng.Intn(12)], R: 1 + rng.Intn(sys.MaxRPC)})
 		case "hstep":
 			out = append(out, sys.Stim{K: "hstep", A: []string{"recv", "recv", "send1", "send2", "closesend", "retnil", "reterr"}[rng.Intn(7)]})
 		case "relw":
@@ -256,7 +256,11 @@ func sysRandomStims(rng *rand.Rand, cfg sys.Config, n int, w map[string]int) []s
 		case "fault":
 			out = append(out, sys.Stim{K: "fault", E: eps[rng.Intn(2)]})
 		case "relu":
-			out = append(out, sys.Stim{K: "relu", T: append(append([]string{}, cfg.Threads...), "sv")[rng.Intn(len(cfg.Threads)+1)]})
+			k := "relu"
+			if rng.Intn(4) == 0 {
+				k = "relm"
+			}
+			out = append(out, sys.Stim{K: k, T: append(append([]string{}, cfg.Threads...), "sv")[rng.Intn(len(cfg.Threads)+1)]})
 		case "point":
 			out = append(out, sys.Stim{K: "point", T: append(append([]string{}, cfg.Threads...), "sv")[rng.Intn(len(cfg.Threads)+1)]})
 		}
